@@ -4,11 +4,12 @@ The static side of the C09 tie: what tools/gen_sql_sites.py extracts from clouds
 and the statement shapes that the branches of `CS.Storage.Sqlite.step` (Model/Storage.lean) stand for.
 No Mathlib; plain data and Boolean functions so that Props/C09Sql.lean can decide every fact in the kernel.
 -/
+import Csverif.Model.Storage
 namespace CS.Storage
 
 structure SqlSite where
   method      : String        -- qualified enclosing function
-  kind        : String        -- "stmt" | "call" | "loop" | "sqlstr"
+  kind        : String        -- "stmt" | "call" | "loop" | "sqlstr" | "connkw" | "connattr"
   callee      : String        -- source of the called attribute ("" for loop / sqlstr)
   sql         : String        -- statement text (loop: header source); non-literal parts `{dyn:…}` / `{param:…}`
   toks        : List String   -- upper-cased tokens of `sql`
@@ -21,6 +22,8 @@ structure SqlSite where
   hasOrderBy  : Bool
   result      : String        -- how the result is consumed
   exitsBefore : Nat           -- return / raise statements lexically before the site in its function
+  reach       : String        -- "connect": in a function that creates a connection (runs for every connection) |
+                              -- "init-only": reachable from `__init__` only | "any"
   deriving DecidableEq, Repr
 
 /-- statement shapes; the right-hand column is the model branch that stands for it -/
@@ -72,5 +75,44 @@ def sizeIndependent (s : SqlSite) : Bool :=
   !s.inLoop && !s.hasLimit && !s.hasOffset && !s.hasOrderBy &&
   !mentions "LIMIT" s.toks && !mentions "OFFSET" s.toks && !mentionsOrderBy s.toks &&
   s.exitsBefore == 0
+
+/-! connection configuration: which `Conn.Cfg` (Model/Storage.lean) the extracted sites amount to -/
+
+def connectCalls (sites : List SqlSite) : List SqlSite :=
+  sites.filter (fun s => s.kind == "call" && s.toks == ["connect"])
+
+/-- the `connect` call in method `m` passes `kw=None` -/
+def kwNone (sites : List SqlSite) (m kw : String) : Bool :=
+  sites.any (fun s => s.kind == "connkw" && s.method == m && s.sql == kw && s.params == "None")
+
+/-- an unconditional assignment `<connection>.kw = None` on call paths of class `reach` -/
+def attrNoneAt (sites : List SqlSite) (reach kw : String) : Bool :=
+  sites.any (fun s => s.kind == "connattr" && s.sql == kw && s.params == "None" && s.reach == reach && s.ctx == "" &&
+    s.exitsBefore == 0)
+
+/-- autocommit (`isolation_level=None`) of the connection configured by `__init__` and of a replacement made by the reconnect
+    branch: a setting counts for EVERY connection only if it is an argument of every `connect` call or an unconditional
+    assignment in the function that creates the connection; a setting reachable from `__init__` only counts for the first -/
+def cfgOf (sites : List SqlSite) : Conn.Cfg :=
+  let everyConnect :=
+    (!(connectCalls sites).isEmpty &&
+      (connectCalls sites).all (fun c => c.ctx == "" && c.exitsBefore == 0 && kwNone sites c.method "isolation_level")) ||
+    attrNoneAt sites "connect" "isolation_level"
+  { initAuto := everyConnect || attrNoneAt sites "init-only" "isolation_level", reconnAuto := everyConnect }
+
+/-- nothing ever takes a connection out of autocommit or manages transactions by hand: no other value is given to
+    `isolation_level`, `autocommit` is not used, no `commit()` / `rollback()` / `cursor()` / `executescript`, and no statement (or
+    stray SQL literal) starts with BEGIN / COMMIT / ROLLBACK / END / SAVEPOINT / RELEASE -/
+def staysAutocommit (sites : List SqlSite) : Bool :=
+  sites.all fun s =>
+    (if s.kind == "connkw" || s.kind == "connattr" then
+       (s.sql != "isolation_level" || s.params == "None") && s.sql != "autocommit" && s.sql != "**"
+     else true) &&
+    (if s.kind == "call" then s.toks != ["commit"] && s.toks != ["rollback"] && s.toks != ["cursor"] else true) &&
+    (if s.kind == "stmt" || s.kind == "sqlstr" then
+       (match s.toks with
+        | "BEGIN" :: _ | "COMMIT" :: _ | "ROLLBACK" :: _ | "END" :: _ | "SAVEPOINT" :: _ | "RELEASE" :: _ => false
+        | _ => true)
+     else true)
 
 end CS.Storage
